@@ -124,11 +124,7 @@ pub(super) fn execute_aggregate<'a, S: GraphSnapshot + 'a>(
                             }
                         }
 
-                        if saw_float {
-                            Value::Float(float_sum)
-                        } else {
-                            Value::Int(int_sum as i64)
-                        }
+                        finish_sum(saw_float, int_sum, float_sum)
                     }
                     AggregateFunction::SumDistinct(expr) => {
                         let mut distinct_values: Vec<Value> = Vec::new();
@@ -163,11 +159,7 @@ pub(super) fn execute_aggregate<'a, S: GraphSnapshot + 'a>(
                             }
                         }
 
-                        if saw_float {
-                            Value::Float(float_sum)
-                        } else {
-                            Value::Int(int_sum as i64)
-                        }
+                        finish_sum(saw_float, int_sum, float_sum)
                     }
                     AggregateFunction::Avg(expr) => {
                         let values: Vec<f64> = rows
@@ -332,6 +324,18 @@ pub(super) fn execute_aggregate<'a, S: GraphSnapshot + 'a>(
         .collect();
 
     Box::new(results.into_iter())
+}
+
+/// Result of `sum`: integer inputs give the exact integer total when it fits `i64`; on
+/// overflow the sum falls back to a float like integer arithmetic does (never wraps).
+fn finish_sum(saw_float: bool, int_sum: i128, float_sum: f64) -> Value {
+    if saw_float {
+        return Value::Float(float_sum);
+    }
+    match i64::try_from(int_sum) {
+        Ok(total) => Value::Int(total),
+        Err(_) => Value::Float(float_sum),
+    }
 }
 
 fn validate_aggregate_runtime_expressions<S: GraphSnapshot>(
